@@ -13,7 +13,7 @@
    of every destruction; ids are never reused, the flag [ub] records any second destruction of an
    object and any use of a destroyed one. *)
 From Coq Require Import NArith List Bool Permutation.
-From Morfuse Require Import C13.Model C13.Spec C13.ProofsLib C13.ProofsInv C13.ProofsKill C13.ProofsEvo C13.ProofsReset C13.ProofsStep C13.ProofsRun.
+From Morfuse Require Import Base.Arr C13.Model C13.Spec C13.ProofsLib C13.ProofsInv C13.ProofsKill C13.ProofsEvo C13.ProofsReset C13.ProofsStep C13.ProofsRun.
 Import ListNotations.
 Local Open Scope N_scope.
 
@@ -120,7 +120,8 @@ Print Assumptions C13_every_error_free_history_reaches_a_good_state.
 
 (* Idle means empty, suspended means busy.  For EVERY history of thread starts (any program of
    println / wait / thread / waitthread / host_reset / host_recompile / pause / level.r<k> = local /
-   level.r<k> wait|waitframe|pause applied to another thread, any nesting), clock
+   level.r<k> wait|waitframe|pause applied to another thread / waitthread of a missing label, any
+   nesting; also refused host starts), clock
    advances, frames, Resets, recompiles and the destruction of the context, every observation
    the host makes between two operations that carries no error flag satisfies:
    as many VMs as threads; no instance => no thread, no timer element, idle;
@@ -180,8 +181,29 @@ Print Assumptions C13_timer_elements_of_every_error_free_history.
 Theorem C13_a_timing_command_on_any_thread_keeps_the_invariant :
   forall sc cl s b d,
     Good sc cl s -> healthy s b -> Good sc cl (wait_on b d s) /\ Good sc cl (pause_on b s).
-Proof. intros sc cl s b d G Hb. split; [exact (good_wait_on sc cl s b d G Hb)|exact (good_pause_on sc cl s b G Hb)]. Qed.
+Proof. exact timing_commands_ok. Qed.
 Print Assumptions C13_a_timing_command_on_any_thread_keeps_the_invariant.
+
+(* A thread start that creates a new script instance and then fails (the label does not exist:
+   ScriptMaster::CreateScriptThread(script, self, label) deletes the thread-less instance in its
+   handler) leaves a good state with exactly the instances, chain links, threads and VMs there
+   were before - from a script (waitthread) and from the host (ExecuteThread). *)
+Theorem C13_a_failed_thread_start_leaves_no_instance_behind :
+  forall sc cl k s,
+    Good sc cl s ->
+    let s' := (let '(c, s1) := new_class k s in destroy_class (dfuel s1) c s1) in
+    Good sc cl s' /\ cpool s' = cpool s /\ chain s' = chain s /\ tpool s' = tpool s /\ vpool s' = vpool s.
+Proof. exact failed_start_pools. Qed.
+Print Assumptions C13_a_failed_thread_start_leaves_no_instance_behind.
+
+(* Reset means as new also for the variables of game, level and parm: whatever scripts stored
+   there, after a Reset (between two frames or from inside a host command, in any state) every
+   such variable reads as not set and every stored thread reference is gone; the end of threads
+   and a recompilation do not touch them (they are compared with the engine on every case). *)
+Theorem C13_reset_forgets_the_global_variables :
+  forall s v k, Base.Arr.get (gvars (reset s)) v = 0 /\ Base.Arr.get (refs (reset s)) k = None.
+Proof. exact reset_forgets_globals. Qed.
+Print Assumptions C13_reset_forgets_the_global_variables.
 
 (* Not proved (full statement): forall ops, run ops = spec_run ops - the model (pools, VM state
    machine, chains, weak references, destructor cascades) observes what the abstract resource
